@@ -400,7 +400,12 @@ func (x *FnExec) contractCall(c *Contract, sig *types.Signature, key string, arg
 	x.allocBound(na)
 	st.alloc = na
 	if c.ModAll {
+		// `modifies *` in a written contract means everything, ghost state included (only calls WITHOUT any
+		// contract keep ghost state, see havocAll)
 		x.havocAll(st)
+		if st.base != nil {
+			st.base.ghostBase = nil
+		}
 		x.addFact(x.intLe(na, st.alloc))
 	} else {
 		mev := &SpecEnv{x: x, vars: map[string]TV{}, cur: frozen, old: frozen, c: c, pkgPath: c.Pkg}
